@@ -265,6 +265,9 @@ var assumptionsPipeline = []string{
 	"language limits, excluded by construction for the pipeline/tick law and counted (L1, L2): a string value that ends in a backslash and also contains ''' has no literal form (constant concatenations do not end in a backslash); the empty regex can only be written directly after =~ !~ = (an empty regex var is not used as a function argument)",
 	"each case is checked against one law (json: Marshal -> Unmarshal; tick: pipeline/tick rendering -> CreatePipeline); the generator avoids, per law, what that round trip is known to lose (counted exclusions J*, T*, K*)",
 	"the parameters of InfluxQL function nodes live in closures: the node's own reducers are run on a fixed series and their output is part of the fingerprint (holtWinters excepted: its fit is an expensive optimisation)",
+	"json law, while J8 is a known finding: a pipeline containing an InfluxQL function node with call parameters (percentile, top/bottom, movingAverage, elapsed, holtWinters: len(Args) > 0) is generated and compared with those nodes reduced to what the pipeline holds as data (node type, edges, Method, Field, As, PointTimes and the exported Args list, every argument with its dynamic Go type: int64 / float64 / string / time.Duration); the reducer probe and ReduceCreater.TopBottomCallInfo (the copies J8 loses) are left out for these nodes only, every other node is compared in full; counted as exclusion J8 per case; witnesses and C13_NOEXCL=J8 compare in full",
+	"the Args list of an InfluxQL function node is part of the pipeline's meaning (taken from code): it is the only place the call's literals are exported, pipeline JSON writes it as \"args\" and pipeline/tick renders the node's call from it; the literal's type is part of the literal (a tag named '5m' is a string, not a duration)",
+	"field and tag names are arbitrary strings (TICKscript writes them as string literals; InfluxDB accepts any key): names whose text is a literal of another type (1m, 5m, 15m, 1h, 10, 1.5, TRUE, /re/, *, ...) are generated for every name argument (label arg:name-looks-like-literal)",
 	"node ids/names are not part of a pipeline's meaning: the comparison uses the canonical fingerprint (multiset of node type + exported properties + ordered parent signatures); NoOp nodes are ignored (pipeline JSON and pipeline/tick drop them by design)",
 	"the re-rendered script needs no vars: pipeline/tick inlines values",
 }
@@ -305,7 +308,7 @@ func runPipeline(r *kit.Rec, c ScriptCase, cc *kit.Case) {
 	cc.Label("accepted")
 	cc.Label("law:" + c.Law)
 	for _, l := range c.Labels {
-		if strings.HasPrefix(l, "prop:") || strings.HasPrefix(l, "handler:") {
+		if strings.HasPrefix(l, "prop:") || strings.HasPrefix(l, "handler:") || l == "arg:name-looks-like-literal" {
 			cc.Label(l)
 		}
 	}
@@ -355,8 +358,17 @@ func pipelineJSONLaw(r *kit.Rec, c ScriptCase, p *pipeline.Pipeline, fp Fingerpr
 		return
 	}
 	fq := fingerprint(q)
-	if fq.Canon != fp.Canon {
-		fail(cc, "pipeline-json/changed/"+pipelineChangeClass(fp.Canon, fq.Canon), "pipeline JSON round trip changed the pipeline; %s\nscript:\n%s", canonDiff(fp.Canon, fq.Canon), c.Script)
+	before, after := fp.Canon, fq.Canon
+	// J8 (known): the reducers of an InfluxQL function node with call parameters come back with zero
+	// parameters. Such nodes are compared by what the pipeline holds as data (argsOnly view: Method,
+	// Field, As, PointTimes and the Args list with the dynamic type of every argument), everything
+	// else in the pipeline in full.
+	if skip(r, w, anyNode(p, hasCallParameters), classJ8) {
+		before, after = fp.CanonA, fq.CanonA
+		cc.Label("json:influxql-parameters-compared-by-args")
+	}
+	if after != before {
+		fail(cc, "pipeline-json/changed/"+pipelineChangeClass(before, after), "pipeline JSON round trip changed the pipeline; %s\nscript:\n%s", canonDiff(before, after), c.Script)
 	}
 	cc.Label("json-roundtrip-checked")
 }
